@@ -129,6 +129,10 @@ func (n *authNet) RoundTrip(req *http.Request) (*http.Response, error) {
 		n.replies[host] = q[1:]
 	}
 	switch {
+	case strings.HasPrefix(r, "redirect|"):
+		resp := mk(307, "")
+		resp.Header.Set("Location", "https://"+strings.TrimPrefix(r, "redirect|")+req.URL.Path)
+		return resp, nil
 	case r == "final":
 		return mk(200, ""), nil
 	case r == "basic":
@@ -321,6 +325,74 @@ func runC16(seed int64, tier string, sc *Script, withBody bool) map[string]any {
 				}
 			}
 			sc.Op(verdict, "au scan")
+		}
+	}
+	// redirects: registry A answers with a redirect to another host B, which challenges.  The
+	// http.Client underneath follows the redirect; whatever B asks for, A's secrets stay with A.
+	if !withBody {
+		rcases := 60
+		if tier == "thorough" {
+			rcases = 1500
+		}
+		for ci := 0; ci < rcases; ci++ {
+			sc.Case("auth-redirect")
+			sc.NonTrivial()
+			net := &authNet{replies: map[string][]string{}, hostNum: hostNum}
+			a := 1 + rng.Intn(3)
+			b := 1 + (a+rng.Intn(2))%3
+			client := &auth.Client{
+				Client: &http.Client{Transport: net},
+				Credential: func(ctx context.Context, reg string) (auth.Credential, error) {
+					n, ok := hostNum[reg]
+					if !ok || n > 3 {
+						return auth.EmptyCredential, nil
+					}
+					return auth.Credential{Username: "user", Password: fmt.Sprintf("PW-h%d", n), RefreshToken: fmt.Sprintf("RT-h%d", n)}, nil
+				},
+			}
+			switch ci % 3 {
+			case 0:
+				client.Cache = auth.NewCache()
+			case 1:
+				client.Cache = auth.NewSingleContextCache()
+			}
+			chal := []string{"basic", fmt.Sprintf("bearer|%s|repository:a:pull", hosts[b]), fmt.Sprintf("bearer|realm.test|repository:a:pull"), "unknown"}[rng.Intn(4)]
+			net.fetch = fmt.Sprintf("TOK-%d", 9000+ci)
+			for step := 0; step < 3; step++ {
+				// A redirects to B; B challenges, then accepts whatever comes
+				net.replies[hosts[a]] = []string{"redirect|" + hosts[b], "redirect|" + hosts[b], "final"}
+				net.replies[hosts[b]] = []string{chal, "final", "final"}
+				if step == 1 {
+					// a plain request to A in between (fills the cache for A)
+					net.replies[hosts[a]] = []string{"basic", "final"}
+				}
+				net.out = nil
+				req, _ := http.NewRequest(http.MethodGet, "https://"+hosts[a]+"/v2/a/manifests/x", nil)
+				resp, err := client.Do(req)
+				if err == nil {
+					resp.Body.Close()
+				}
+				verdict := "clean"
+				for _, o := range net.out {
+					var to int
+					var rest string
+					fmt.Sscanf(o, "to=%d:%s", &to, &rest)
+					isFetch := strings.HasSuffix(rest, ":F")
+					for _, m := range strings.Split(strings.TrimSuffix(rest, ":F"), "+") {
+						if len(m) == 3 && (strings.HasPrefix(m, "pw") || strings.HasPrefix(m, "rt") || strings.HasPrefix(m, "at")) {
+							owner := int(m[2] - '0')
+							// the only place a password / refresh token may go besides its own registry
+							// is the token realm that registry itself advertised - never B's realm, never B
+							if to != owner && !(isFetch && m[:2] != "at" && owner == a && step == 1) {
+								verdict = "leak:" + o
+							}
+						}
+					}
+				}
+				sc.Op(verdict, "au scan redirect a=%d b=%d step=%d chal=%s", a, b, step, strings.SplitN(chal, "|", 2)[0])
+				evals++
+				sc.Count("redirect:" + strings.SplitN(chal, "|", 2)[0])
+			}
 		}
 	}
 	// CleanScopes: exhaustive short lists over a pool of well-formed and malformed scopes
